@@ -237,7 +237,7 @@ func (ls *List) Map(ctx context.Context, fn Object) Object {
 	case *Builtin:
 		result := make([]Object, 0, len(ls.items))
 		for _, value := range ls.items {
-			outputValue := obj.fn(ctx, value)
+			outputValue := callBuiltin(ctx, obj, value)
 			if IsError(outputValue) {
 				return outputValue
 			}
@@ -294,7 +294,7 @@ func (ls *List) Filter(ctx context.Context, fn Object) Object {
 	for _, value := range ls.items {
 		var decision Object
 		if builtin, ok := fn.(*Builtin); ok {
-			decision = builtin.fn(ctx, value)
+			decision = callBuiltin(ctx, builtin, value)
 		} else {
 			filterArgs[0] = value
 			var err error
@@ -328,7 +328,7 @@ func (ls *List) Each(ctx context.Context, fn Object) Object {
 	for _, value := range ls.items {
 		var result Object
 		if builtin, ok := fn.(*Builtin); ok {
-			result = builtin.fn(ctx, value)
+			result = callBuiltin(ctx, builtin, value)
 		} else {
 			eachArgs[0] = value
 			var err error
